@@ -50,8 +50,8 @@ impl Check for C11 {
     }
 
     fn run(&self, ctx: &mut Ctx) -> Result<(), MachineryError> {
-        let max_list = ctx.tier.pick(4usize, 9usize);
-        let max_str = ctx.tier.pick(5usize, 9usize);
+        let max_list = ctx.tier.pick(7usize, 9usize);
+        let max_str = ctx.tier.pick(7usize, 9usize);
         ctx.rule = format!("complete product: lists of length 0..{} (distinct elements) and ASCII strings of length 0..{} plus multi-byte strings x every index in [-2,len+2] x every bound pair in ([-2,len+2] + omitted)^2 x element assignment at every index x range assignment with list and string right-hand sides of every length 0..len+1 x all concatenation length pairs x non-integer index kinds x element op-assignment at every index, plus 15 programs whose indices, bounds and right-hand sides read the list being assigned to; non-trivial = all (distinct tuples)", max_list, max_str);
         ctx.rule.push_str("; plus programs whose index or bound reads or, through a call, writes the sequence it is applied to");
         let mut cases: Vec<Case> = vec![];
